@@ -52,8 +52,10 @@ theorem adv_rangeLoop {text : Bytes} {d d' : Data} {lo hi : Bytes} {n : Bool} :
     intro h
     unfold rangeLoopD at h
     split at h
-    · simp at h; exact Or.inr ⟨_, h.symm⟩
     · exact ih h
+    · split at h
+      · simp at h; exact Or.inr ⟨_, h.symm⟩
+      · exact ih h
 
 theorem adv_range {text : Bytes} {d d' : Data} {lo hi : Bytes} {n : Bool} (h : rangeD text lo hi n d = some d') :
     Adv text d d' := adv_rangeLoop _ h
